@@ -263,7 +263,7 @@ def run_case(case):
             from fv.gen import scen
             rng = np.random.default_rng(case["seed"])
             for _ in range(case["count"]):
-                at = scen.base_tissue(rng, ["lat-square", "lat-brick", "lat-hex", "lat-square"][int(rng.integers(4))])
+                at = scen.base_tissue(rng, ["lat-square", "lat-brick", "lat-hex", "lat-square", "lat-tri", "lat-fan"][int(rng.integers(6))])
                 if rng.random() < 0.6:
                     at = at.sub(tissue.random_connected_subset(rng, at, int(rng.integers(1, len(at.cells) + 1))))
                 if rng.random() < 0.3 and len(at.cells) > 6:
